@@ -84,6 +84,13 @@ func (c *Ctx) Max(name string, v int64) {
 	c.mu.Unlock()
 }
 
+// MaxOf returns the current value of a named gauge.
+func (c *Ctx) MaxOf(name string) int64 {
+	c.mu.Lock()
+	defer c.mu.Unlock()
+	return c.maxes[name]
+}
+
 // Hash is the 64-bit FNV-1a of s.
 func Hash(s string) uint64 {
 	h := fnv.New64a()
